@@ -838,6 +838,8 @@ class Interp:
                 args.append(self.eval(a, env))
             except ExtractError as ex:
                 args.append(Opaque(str(ex)[:40]))
+        if name in ("fabs", "abs") and len(args) == 1 and isnum(args[0]):
+            return abs(args[0])
         if name in self.inline:
             for f in self.files:
                 if name in f.funcs:
@@ -851,6 +853,9 @@ class Interp:
                         return r.v
                     return None
             raise ExtractError("function %s to inline not found" % name)
+        w = getattr(self, "watch", {}).get(name)
+        if w is not None:
+            args = args + [self.mem.get(w)]          # value of a watched location at the time of the call
         self.ops.append((name, args))
         if len(self.ops) > self.max_ops:
             raise ExtractError("too many operations")
@@ -1680,6 +1685,24 @@ def _extract_all(repo, fam):
     it.enums = enums
     it.run("reb_simulation_reset_integrator", [Path("r")])
     D["dispatch_reset"] = {"calls": [o[0] for o in it.ops], "integrator_after": it.mem.get("r.integrator")}
+    # ---- user ODEs carried by a non-BS integrator: the sub-stepping loop at the end of reb_integrator_part2
+    fam[0] = "odeloop"
+    D["odeloop"] = []
+    for t_, dtn, dtl, prop in ((Fraction(10), Fraction(3), Fraction(2), Fraction(0)), (Fraction(10), Fraction(3), Fraction(2), Fraction(7, 10)),
+                               (Fraction(-5), Fraction(-1, 2), Fraction(-1, 4), Fraction(0)), (Fraction(-5), Fraction(-1, 2), Fraction(-1, 4), Fraction(1, 10)),
+                               (Fraction(1, 3), Fraction(1, 7), Fraction(1, 5), Fraction(-1, 16))):
+        it = Interp([igr], {"r.integrator": enums["REB_INTEGRATOR_LEAPFROG"], "r.ri_bs.nbody_ode": 0, "r.N_odes": 1, "r.ode_warnings": 1,
+                            "r.t": t_, "r.dt": dtn, "r.dt_last_done": dtl, "r.ri_bs.dt_proposed": prop, "reb_sigint": 0}, set(),
+                    {"reb_integrator_bs_step": 1}, max_ops=1000)
+        it.enums = enums
+        it.watch = {"reb_integrator_bs_step": "r.t"}
+        it.run("reb_integrator_part2", [Path("r")])
+        calls = [o for o in it.ops if o[0] == "reb_integrator_bs_step"]
+        if any(not (isnum(o[1][1]) and isnum(o[1][2])) for o in calls):
+            raise ExtractError("user-ODE loop: untracked sub-step arguments %s" % calls[:2])
+        D["odeloop"].append({"t": t_, "dt_next": dtn, "dt_last_done": dtl, "dt_proposed": prop,
+                             "calls": [(Fraction(o[1][2]), Fraction(o[1][1])) for o in calls], "t_after": Fraction(it.mem["r.t"]),
+                             "family_calls": [o[0] for o in it.ops if o[0] != "reb_integrator_bs_step"]})
     # ---- BS: substep sequence, extrapolation abscissae, and the linear map of `extrapolate`
     fam[0] = "bs"
     bs = CFile(os.path.join(S, "integrator_bs.c"))
@@ -1943,6 +1966,11 @@ def emit_lean(D):
     s += "    \"advance_time\" = only r->t += r->dt -/\n"
     s += "def dispatch : List (String × Nat × String × String × String × String) := [\n  " + ",\n  ".join(
         '("%s", %d, "%s", "%s", "%s", "%s")' % (r_["enum"], r_["value"], r_["family"], r_["part1"], r_["part2"], r_["synchronize"]) for r_ in D["dispatch"]) + "]\n"
+    s += "/-- the user-ODE sub-stepping loop of reb_integrator_part2 executed for (t after the N-body step, r->dt = size proposed for the NEXT\n"
+    s += "    step, r->dt_last_done, ri_bs.dt_proposed): the (start time seen by reb_integrator_bs_step, dt passed to it) of every call, and r->t afterwards -/\n"
+    s += "def odeLoop : List ((Rat × Rat × Rat × Rat) × List (Rat × Rat) × Rat) := [\n  " + ",\n  ".join(
+        "((%s, %s, %s, %s), [%s], %s)" % (lq(e["t"]), lq(e["dt_next"]), lq(e["dt_last_done"]), lq(e["dt_proposed"]),
+                                          ", ".join("(%s, %s)" % (lq(a), lq(b)) for a, b in e["calls"]), lq(e["t_after"])) for e in D["odeloop"]) + "]\n"
     s += "def dispatchResetCalls : List String := [" + ", ".join('"%s"' % x for x in D["dispatch_reset"]["calls"]) + "]\n"
     s += "def dispatchResetIntegrator : Nat := %d\n" % D["dispatch_reset"]["integrator_after"]
     s += "end RV.C01.Gen\n"
